@@ -116,6 +116,7 @@ type hxSrv struct {
 	armChecks    int
 	expectTimeout time.Duration
 	posCount     map[string]int
+	onDrained    func()   // called when the client has read everything the server queued so far
 	refuseDials  int      // number of dial attempts that are refused before one reaches the server (fallback port)
 	dialed       []string // addresses the dial function was asked for
 }
@@ -604,6 +605,9 @@ func (c *hxConn) Read(p []byte) (int, error) {
 	n := copy(p, s.out)
 	s.out = s.out[n:]
 	s.greetingRead = true
+	if s.onDrained != nil && len(s.out) == 0 {
+		s.onDrained()
+	}
 	return n, nil
 }
 
